@@ -31,6 +31,7 @@ def c03(run):
                              "representation (ring start, direction, hole/member order, similarity); (Multi)LineString "
                              "simplicity; NaN/Inf ordinates. Non-trivial = non-empty; distinct by hash of the case"}
     family_enumerated(run, "valid", "Gen_Valid", "Trace_Valid", gen_cfg=tier_n(run, "Gen_Valid.cfg", "Gen_Valid_full.cfg"))
+    family_enumerated(run, "valid", "Gen_Holes", "Trace_Valid", label="holes")
     family_enumerated(run, "valid", "Gen_Rings", "Trace_Valid", label="rings", gen_cfg=tier_n(run, "Gen_Rings.cfg", "Gen_Rings_full.cfg"))
     family_random(run, "valid", "Trace_Valid", tier_n(run, 12000, 600000))
 
